@@ -36,3 +36,12 @@ def run(chk, repo, tier):
     R.purity(chk, repo, 'R03.5')
     R.reviewed_scheme(chk, repo, 'R03.5')
     R.reviewed_matcher(chk, repo, 'R03.5')
+    # comparison numbers used by the patterns' constraints
+    from . import c08 as _c08
+    from .. import grammar_ir as _G, reviewed as _rv
+    _c08.ops_table(chk, repo, _G.load(repo)[1], R2='R03.5', R3='R03.5')
+    for q in ('ConstraintNumber.__init__', 'ConstraintNumber.__call__'):
+        _rv.check(chk, 'R03.5', repo, 'pgradd/RDkitWrapper/MolQuery.py', q,
+                  '%s is unchanged from its reviewed reference' % q)
+    R.message_concat_types(chk, repo, 'R03.2', [R.SCH, 'pgradd/Error.py'])
+
